@@ -23,8 +23,10 @@ REPO = os.environ.get("WALLGO_REPO", "/repo")
 SRC = os.path.join(REPO, "src", "WallGo")
 COQ = os.path.join(VERIF, "coq")
 BUILD = os.path.join(VERIF, "build")
-EVID = os.path.join(VERIF, "evidence")
-REPLAYS = os.path.join(VERIF, "replays")
+# evidence/replays of runs against a scratch checkout (seeded changes) never overwrite the real ones
+_SCR = REPO != "/repo"
+EVID = os.path.join(BUILD, "scratch_evidence") if _SCR else os.path.join(VERIF, "evidence")
+REPLAYS = os.path.join(BUILD, "scratch_replays") if _SCR else os.path.join(VERIF, "replays")
 KNOWN = os.path.join(VERIF, "known_findings.json")
 
 # Axioms of the standard library (or of libraries built on it) that a theorem may depend
